@@ -122,6 +122,8 @@ v("C16-no-terminate", "C16", "fire", EX, "        except ConductorAbort:\n      
 v("C16-revert-F8a", "C16", "fire", RT, "        process = None\n        try:", "        try:", "SG3")
 v("C16-revert-F8c", "C16", "fire", "parsing/task_loader.py", "        except ConductorError:\n            raise\n        except Exception as ex:\n            run_err = TaskParseError(error_details=str(ex))\n            run_err.add_file_context(\n                file_path=self._to_project_path(include_path)", "        except Exception as ex:\n            run_err = TaskParseError(error_details=str(ex))\n            run_err.add_file_context(\n                file_path=self._to_project_path(include_path)", "SG2")
 v("C16-revert-F8d", "C16", "fire", EX, "                    if handle is not None:\n                        # The operation was started but may not have been\n                        # registered yet; make sure it will be terminated.\n                        self._inflight_ops.add_op(handle, next_op)\n", "", "SG4")
+v("C16-revert-F11", "C16", "fire", RT, "                try:\n                    group_id = os.getpgid(process.pid)\n                    if group_id >= 0:\n                        os.killpg(group_id, signal.SIGTERM)\n                except OSError as ex:\n                    # The process may have already exited (and been reaped).\n                    if ex.errno != errno.ESRCH and ex.errno != errno.ECHILD:\n                        raise\n", "                group_id = os.getpgid(process.pid)\n                if group_id >= 0:\n                    os.killpg(group_id, signal.SIGTERM)\n", "SG10")
+v("C16-assert-in-set_state", "C16", "fire", OP, "    def set_state(self, state: OperationState) -> None:\n        self._state = state", "    def set_state(self, state: OperationState) -> None:\n        assert self.not_yet_executed()\n        self._state = state", "SG10")
 # ---- C17
 v("C17-relative-out", "C17", "fire", "context.py", "        self._output_path = project_root / OUTPUT_DIR", "        self._output_path = pathlib.Path(OUTPUT_DIR)", "CWD4")
 v("C17-revert-F7", "C17", "fire", "cli/gc.py", "        try:\n            return str(path.relative_to(cwd))\n        except ValueError:\n            return str(path)", "        return str(path.relative_to(cwd))", "CWD3")
